@@ -342,6 +342,8 @@ def tab14(units, R, fn_name='cJSON_Duplicate_rec'):
                 r = strip_casts(hs['r'])
                 if is_null_const(hs['r']) or (r.get('k') == 'call' and callee_name(r) in fresh):
                     continue
+                if r.get('k') == 'ref' and r.get('dk') == 'local' and fresh_locals(h).get(r['d']):
+                    continue        # a local of the helper that only ever holds fresh allocations
                 if r.get('k') == 'ref' and r.get('dk') == 'param':
                     idx = [k for k, p in enumerate(h.params) if p['d'] == r['d']]
                     a = strip_casts(call['args'][idx[0]]) if idx and idx[0] < len(call['args']) else {}
